@@ -230,14 +230,22 @@ pub fn load_known() -> Vec<Known> {
     v["findings"]
         .as_array()
         .map(|a| {
-            a.iter()
-                .map(|f| Known {
-                    property: f["property"].as_str().unwrap_or("").to_string(),
-                    class: f["class"].as_str().unwrap_or("").to_string(),
-                    status: f["status"].as_str().unwrap_or("").to_string(),
-                    text: f["text"].as_str().unwrap_or("").to_string(),
-                })
-                .collect()
+            let mut v = vec![];
+            for f in a {
+                let mut classes: Vec<String> = f["classes"].as_array().map(|c| c.iter().filter_map(|x| x.as_str().map(|s| s.to_string())).collect()).unwrap_or_default();
+                if let Some(c) = f["class"].as_str() {
+                    classes.push(c.to_string());
+                }
+                for c in classes {
+                    v.push(Known {
+                        property: f["property"].as_str().unwrap_or("").to_string(),
+                        class: c,
+                        status: f["status"].as_str().unwrap_or("").to_string(),
+                        text: f["text"].as_str().unwrap_or("").to_string(),
+                    });
+                }
+            }
+            v
         })
         .unwrap_or_default()
 }
